@@ -47,15 +47,20 @@ def run(rep, tier, seed, rng):
         if not mods: continue
         # directed cases are small: every candidate module is edited in turn (up to three); random projects: one
         for m in (rng.sample(mods, min(3, len(mods))) if k < len(pool) else [rng.choice(mods)]):
-            scope = "export" if (k < len(pool) and m.get("env", {}).get("export")) else rng.choice(["local", "export"])
-            var = rng.choice(["CFLAGS", "X"])
-            f2 = copy.deepcopy(f)
-            # locate the same module in the copy (same position)
-            idx = [id(x) for x in all_module_dicts(f)].index(id(m))
-            m2 = list(all_module_dicts(f2))[idx]
-            env = m2.setdefault("env", {}).setdefault(scope, {})
-            env[var] = "EDITED-%s" % scope
-            base.append((f, c, f2, m["name"], scope, var))
+            menv = m.get("env", {})
+            if k < len(pool):
+                # directed cases are small: both scopes the module writes are edited, on a variable it defines there
+                edits = [(sc, rng.choice(sorted(menv[sc]))) for sc in ("export", "local") if menv.get(sc)] or [(rng.choice(["local", "export"]), rng.choice(["CFLAGS", "X"]))]
+            else:
+                edits = [(rng.choice(["local", "export"]), rng.choice(["CFLAGS", "X", "OPT", "Y"]))]
+            for scope, var in edits:
+                f2 = copy.deepcopy(f)
+                # locate the same module in the copy (same position)
+                idx = [id(x) for x in all_module_dicts(f)].index(id(m))
+                m2 = list(all_module_dicts(f2))[idx]
+                env = m2.setdefault("env", {}).setdefault(scope, {})
+                env[var] = "EDITED-%s" % scope
+                base.append((f, c, f2, m["name"], scope, var))
     r1 = e2e.run_batch(laze, driver, [(b[0], b[1]) for b in base])
     r2 = e2e.run_batch(laze, driver, [(b[2], b[1]) for b in base])
     # import closures from the model, per configured build
